@@ -48,6 +48,15 @@ pub fn entry_points() -> Vec<EntryPoint> {
     gens!(v, 8, 16, 24, 32, 64);
     v.push(ep("rng::randombytes_buf(32)", || Ok(dryoc::rng::randombytes_buf(32))));
     v.push(ep("rng::randombytes_buf(13)", || Ok(dryoc::rng::randombytes_buf(13))));
+    v.push(ep("rng::randombytes_buf(257)", || Ok(dryoc::rng::randombytes_buf(257))));
+    v.push(ep("rng::randombytes_buf(1000)", || Ok(dryoc::rng::randombytes_buf(1000))));
+    v.push(ep("rng::copy_randombytes(4099)", || {
+        let mut b = vec![0u8; 4099];
+        dryoc::rng::copy_randombytes(&mut b);
+        Ok(b)
+    }));
+    v.push(ep("StackByteArray<300>::gen", || Ok(StackByteArray::<300>::gen().to_vec())));
+    v.push(ep("Vec<u8> as NewByteArray<513>::gen", || Ok(<Vec<u8> as NewByteArray<513>>::gen())));
     v.push(ep("rng::copy_randombytes(40)", || {
         let mut b = vec![0u8; 40];
         dryoc::rng::copy_randombytes(&mut b);
@@ -154,6 +163,12 @@ pub fn entry_points() -> Vec<EntryPoint> {
     }));
     v.push(ep_slow("PwHash::hash salt (24-byte salt config)", || {
         let cfg = dryoc::pwhash::Config::interactive().with_opslimit(1).with_memlimit(8192).with_salt_length(24);
+        let h = dryoc::pwhash::PwHash::<Vec<u8>, Vec<u8>>::hash(&b"pw".to_vec(), cfg).map_err(|e| format!("{e:?}"))?;
+        let (_, salt, _) = h.into_parts();
+        Ok(salt)
+    }));
+    v.push(ep_slow("PwHash::hash salt (300-byte salt config)", || {
+        let cfg = dryoc::pwhash::Config::interactive().with_opslimit(1).with_memlimit(8192).with_salt_length(300);
         let h = dryoc::pwhash::PwHash::<Vec<u8>, Vec<u8>>::hash(&b"pw".to_vec(), cfg).map_err(|e| format!("{e:?}"))?;
         let (_, salt, _) = h.into_parts();
         Ok(salt)
